@@ -68,6 +68,10 @@ def obligations(tier):
             if tier == 'quick' and stack == 'pydantic' and (a, b) not in QUICK_PAIRS[:5]:
                 continue
             obs.append({'h': 'gen', 'kind': kind, 'stack': stack, 'ann': [a, b], 'prefix': '/api' if a != 'prefix' else ''})
+        if stack in ('doc', 'base+doc'):
+            # docstring sections that leave things out: no type, empty description, summary only
+            for docform, a in it.product(('untyped', 'nodesc', 'summary'), ('none', 'text')):
+                obs.append({'h': 'gen', 'kind': kind, 'stack': stack, 'ann': [a], 'prefix': '/api', 'docform': docform})
         if kind == 'openapi':
             # two endpoint prefixes serving DIFFERENT methods under the SAME exposed name
             for a, b in (('text', 'tags'), ('own_errors', 'none'), ('none', 'shared_errors'), ('examples', 'text'), ('tags', 'tags')):
@@ -98,9 +102,18 @@ def _meta_schemas():
     return _META
 
 
-def _mk_method(i, with_doc, typed):
+def _mk_method(i, with_doc, typed, docform=None):
     ns = {}
-    doc = (f'    """\n    Method {i} summary.\n\n    Long description {i}.\n\n    :param integer a: first\n    :param string b: second\n'
+    if with_doc and docform == 'untyped':       # entries that state no type
+        doc = (f'    """\n    Method {i} summary.\n\n    Long description {i}.\n\n    :param a: first\n    :param string b: second\n'
+               f'    :returns: result\n    """\n')
+    elif with_doc and docform == 'nodesc':      # entries with an empty description
+        doc = (f'    """\n    Method {i} summary.\n\n    :param integer a:\n    :param string b: second\n'
+               f'    :returns:\n    :rtype: integer\n    """\n')
+    elif with_doc and docform == 'summary':     # a docstring with a summary line only
+        doc = f'    """Method {i} summary."""\n'
+    else:
+      doc = (f'    """\n    Method {i} summary.\n\n    Long description {i}.\n\n    :param integer a: first\n    :param string b: second\n'
            f'    :returns: result\n    :rtype: integer\n    :raises MethodNotFoundError: never\n    """\n') if with_doc else ''
     sig = 'a: int, b: str = "x"' if typed else 'a, b="x"'
     ret = ' -> int' if typed else ''
@@ -167,7 +180,7 @@ def h_gen(ob):
         reg = pjrpc.server.MethodRegistry()
         regs = []
         for i, a in enumerate(ob['ann']):
-            fn = _mk_method(0 if ob.get('multi') else i, with_doc, typed=(stack == 'pydantic'))
+            fn = _mk_method(0 if ob.get('multi') else i, with_doc, typed=(stack == 'pydantic'), docform=ob.get('docform'))
             kw = {}
             mk = []
             if a == 'shared_errors':
